@@ -155,6 +155,18 @@ CLAIMED = {
         "well-formedness of a datagram is decided by the independent BER reader (byte-level decoding is C06/C20's subject); "
         "informs are delivered without acknowledgement (outside the property)",
     ),
+    "C20": (
+        "proof (partial): on the index-based x690 mirror every successfully decoded TLV moves the cursor forward unless it sits "
+        "on an indefinite-length octet with no later 00 00; under the decidable guard that no position of the datagram is such a "
+        "header, reading any sequence takes at most |datagram|+1 loop iterations (result or exception, never running on); the full "
+        "statement is proved FALSE (C20_loop_counterexample, recurring state on 30 04 01 00 04 80) and recorded as a known "
+        "finding of the dependency, as is the quadratic cost of long OID sub-identifiers; the decode path writes only the "
+        "security-model slot (generated footprint). Tied by a mutation sweep (bit flips, truncations, header substitutions, random, "
+        "nested) delivered to real clients / discovery / trap decoder under a time guard with a follow-up request; every real "
+        "hang must be predicted by the model",
+        "partial: CPU time, big-integer cost and memory are runtime facts bounded only through iteration counts; two open known "
+        "findings in the external x690 package",
+    ),
 }
 
 
